@@ -142,6 +142,7 @@ func c17(c *core.Check) {
 	c.Min("index-len", 4)
 	c17formats(c)
 	c17ampEscaped(c)
+	c17escapedOnce(c)
 	c17doubleReparsable(c)
 	// (3) siblings
 	if len(loops) == 2 {
